@@ -117,7 +117,8 @@ def check_case(elfi, zoo_name, names, X=None, seeds=(0,), draws=True, grad=True,
     tag = 'F11-strict-subset-request' if strict else None
 
     def fail(sig, what, **extra):
-        d = dict(signature='c08:' + (tag or sig), what=('[%s] ' % sig if tag else '') + what, input=dict(inp, **extra))
+        t = None if sig.startswith('N1') else tag
+        d = dict(signature='c08:' + (t or sig), what=('[%s] ' % sig if t else '') + what, input=dict(inp, **extra))
         return d, False
     try:
         with native.time_limit(20):
@@ -198,8 +199,10 @@ def check_case(elfi, zoo_name, names, X=None, seeds=(0,), draws=True, grad=True,
                     g1 = mp.gradient_logpdf(Pi[0].tolist() if k > 1 else int(Pi[0, 0]))
                     if np.shape(gi) != Pi.shape or not np.allclose(np.asarray(gi, dtype=float), gai, rtol=1e-4, atol=1e-5) or \
                             not np.allclose(np.asarray(g1, dtype=float), gai[0], rtol=1e-4, atol=1e-5):
+                        bad = [r for r in range(len(Pi)) if np.shape(gi) != Pi.shape or not np.allclose(np.asarray(gi, dtype=float)[r], gai[r], rtol=1e-4, atol=1e-5)]
+                        r = bad[0] if bad else 0
                         d, nt_ = fail('N1-integer-typed-gradient-input', 'gradient_logpdf(%r) [integer-typed query] = %r, derivative of the log density = %r' % (
-                            Pi[0].tolist(), np.asarray(gi)[0].tolist(), gai[0].tolist()), int_query=Pi.tolist())
+                            Pi[r].tolist(), np.asarray(gi)[r].tolist() if np.shape(gi) == Pi.shape else np.asarray(gi).tolist(), gai[r].tolist()), int_query=Pi.tolist())
                         return d, nt_
                 outside = X[zero]
                 if len(outside):
